@@ -110,7 +110,7 @@ func vfRunConnScenario(cfg vfConnScenarioCfg) (events []map[string]interface{}, 
 	var nmu sync.Mutex
 	withheld := map[int][]vfConnPendingAnswer{} // per stream: answers never sent (unless the id is seen again)
 	var nodeRecv, nodeSent, recvHandled, writesOK int64
-	var awg sync.WaitGroup // answer goroutines of the node
+	var awg sync.WaitGroup                              // answer goroutines of the node
 	nrng := rand.New(rand.NewSource(cfg.Seed ^ 0x5eed)) // used under nmu only
 	node.Handler = func(nc *vfNodeConn, f *vfFrame, q *vfRequest) bool {
 		if f.Op != vfOpQuery || !strings.HasPrefix(q.Stmt, "tok_") {
@@ -383,51 +383,7 @@ func vfRunConnScenario(cfg vfConnScenarioCfg) (events []map[string]interface{}, 
 			tr.Emit("closed_ret", "conn", connID)
 		}
 	}
-	// ---- C07: the byte stream after the handshake, and the frame an independent encoder
-	// expects for every request that got a stream id
-	wire := mc.Written()[wireBase:]
-	wints := make([]int, len(wire))
-	for i, b := range wire {
-		wints[i] = int(b)
-	}
-	tr.Emit("wire", "conn", connID, "bytes", wints, "closed", vfB2I(conn.Closed()), "proto", cfg.Proto)
-	fates := map[int]string{}
-	streams := map[int]int{}
-	wok := map[int]int{}
-	for _, e := range tr.Events() {
-		switch e["ev"] {
-		case "call":
-			fates[e["req"].(int)] = e["fate"].(string)
-		case "x_stream":
-			if e["conn"].(int) == connID && e["req"].(int) > 0 {
-				streams[e["req"].(int)] = e["stream"].(int)
-				wok[e["req"].(int)] = -1
-			}
-		case "x_wend":
-			if e["conn"].(int) == connID && e["req"].(int) > 0 {
-				if e["err"].(string) == "none" {
-					wok[e["req"].(int)] = 1
-				} else {
-					wok[e["req"].(int)] = 0
-				}
-			}
-		}
-	}
-	for req, st := range streams {
-		tok := fmt.Sprintf("tok_%d_%s", req, fates[req])
-		body := (&vfW{}).LongString(tok).Short(int(One)).Byte(0).b
-		var fr []byte
-		if cfg.Proto > 2 {
-			fr = append([]byte{byte(cfg.Proto), 0, byte(st >> 8), byte(st), vfOpQuery, 0, 0, 0, byte(len(body))}, body...)
-		} else {
-			fr = append([]byte{byte(cfg.Proto), 0, byte(st), vfOpQuery, 0, 0, 0, byte(len(body))}, body...)
-		}
-		fints := make([]int, len(fr))
-		for i, b := range fr {
-			fints[i] = int(b)
-		}
-		tr.Emit("frame_exp", "conn", connID, "req", req, "bytes", fints, "wok", wok[req])
-	}
+	vfEmitWire(tr, mc, wireBase, connID, cfg.Proto, conn.Closed())
 	sc.gates.ReleaseAll()
 	return tr.Events(), ""
 }
@@ -494,5 +450,55 @@ func TestVfConnStress(t *testing.T) {
 	wg.Wait()
 	if len(fatals) > 0 {
 		t.Fatalf("VFHARNESS scenario setup failed: %v", fatals)
+	}
+}
+
+// vfEmitWire logs the byte stream the driver wrote after the handshake and, for every request
+// that obtained a stream id, the frame an independent encoder expects (C07).
+func vfEmitWire(tr *vfTracer, mc *vfMemConn, wireBase int, connID int, proto int, closed bool) {
+	// ---- C07: the byte stream after the handshake, and the frame an independent encoder
+	// expects for every request that got a stream id
+	wire := mc.Written()[wireBase:]
+	wints := make([]int, len(wire))
+	for i, b := range wire {
+		wints[i] = int(b)
+	}
+	tr.Emit("wire", "conn", connID, "bytes", wints, "closed", vfB2I(closed), "proto", proto)
+	fates := map[int]string{}
+	streams := map[int]int{}
+	wok := map[int]int{}
+	for _, e := range tr.Events() {
+		switch e["ev"] {
+		case "call":
+			fates[e["req"].(int)] = e["fate"].(string)
+		case "x_stream":
+			if e["conn"].(int) == connID && e["req"].(int) > 0 {
+				streams[e["req"].(int)] = e["stream"].(int)
+				wok[e["req"].(int)] = -1
+			}
+		case "x_wend":
+			if e["conn"].(int) == connID && e["req"].(int) > 0 {
+				if e["err"].(string) == "none" {
+					wok[e["req"].(int)] = 1
+				} else {
+					wok[e["req"].(int)] = 0
+				}
+			}
+		}
+	}
+	for req, st := range streams {
+		tok := fmt.Sprintf("tok_%d_%s", req, fates[req])
+		body := (&vfW{}).LongString(tok).Short(int(One)).Byte(0).b
+		var fr []byte
+		if proto > 2 {
+			fr = append([]byte{byte(proto), 0, byte(st >> 8), byte(st), vfOpQuery, 0, 0, 0, byte(len(body))}, body...)
+		} else {
+			fr = append([]byte{byte(proto), 0, byte(st), vfOpQuery, 0, 0, 0, byte(len(body))}, body...)
+		}
+		fints := make([]int, len(fr))
+		for i, b := range fr {
+			fints[i] = int(b)
+		}
+		tr.Emit("frame_exp", "conn", connID, "req", req, "bytes", fints, "wok", wok[req])
 	}
 }
